@@ -144,7 +144,7 @@ def summarize(results):
         if r.get("flags"):
             out["flags"].append(r)
         for f in r.get("findings", []):
-            out["findings"].append((f[0], f[1], r["base"]))
+            out["findings"].append((f[0], f[1], r["base"], f[2] if len(f) > 2 else None))
         out["max_load_steps"] = max(out["max_load_steps"], r.get("metrics", {}).get("max_load_steps", 0))
         out["steps"] += r.get("steps", 0)
         fam["steps"] += r.get("steps", 0)
